@@ -1000,6 +1000,9 @@ func (ctx *Context) evaluate() {
 			stackPush(ret)
 
 		case typeDiceFate:
+			if numOpCountAdd(4) { // 四个命运骰
+				return
+			}
 			sum, detail := RollFate(ctx.RandSrc, getRollMode())
 			ret := NewIntVal(sum)
 			details[len(details)-1].Ret = ret
@@ -1015,7 +1018,7 @@ func (ctx *Context) evaluate() {
 				return
 			}
 
-			if numOpCountAdd(diceNum) {
+			if numOpCountAdd(diceNum) || numOpCountAdd(1) { // 奖励/惩罚骰，加上 D100 本身
 				return
 			}
 
